@@ -822,7 +822,10 @@ func engineLevel(enc *json.Encoder, tmp string, rng *rand.Rand, ngroups int) {
 			if r.HasSugg && r.SuggFrom >= 0 && r.SuggFrom <= r.SuggTo && r.SuggTo <= len(src) {
 				edited := append(append(append([]byte{}, src[:r.SuggFrom]...), r.Sugg...), src[r.SuggTo:]...)
 				o.BytesSame = bytes.Equal(edited, src)
-				if p, err := printNoComments(edited); err != nil {
+				if !o.OwnText {
+					// the AST comparison is only asked for suggestions of the pattern's own text (re-parsing the file is the
+					// expensive part of a run)
+				} else if p, err := printNoComments(edited); err != nil {
 					o.ApplyErr = err.Error()
 				} else {
 					o.AstSame = p == v.print
